@@ -35,8 +35,17 @@ class H(forksym.Harness):
         pdshim.KF_ON.clear()
         pdshim.MUTATIONS.clear()
         tabs = {t: rel.sym_cells(t, cols, j["rows"][t]) for t, cols in j["schema"].items()}
-        model = load.sym_pandas_model()
-        frames = {t: rel.sym_frame(cols, j["rows"][t], index=INDEX[j["rows"][t]], owner=t) for t, cols in tabs.items()}
+        if j.get("backend") == "polars_eager":
+            # the eager Polars adapter works on the caller's pl.DataFrame objects themselves (the lazy default starts with df.lazy())
+            from vf.sym import plshim, plside
+
+            model = plside.sym_polars_model(False)
+            frames = {t: plshim.DataFrame({k: list(v) for k, v in cols.items()}, _n=j["rows"][t]) for t, cols in tabs.items()}
+            for f in frames.values():
+                f._index = []
+        else:
+            model = load.sym_pandas_model()
+            frames = {t: rel.sym_frame(cols, j["rows"][t], index=INDEX[j["rows"][t]], owner=t) for t, cols in tabs.items()}
         before = {t: (list(f.columns), list(f._index), {c: list(v) for c, v in f._cols.items()}) for t, f in frames.items()}
         info = {"tabs": tabs}
         res = []
@@ -77,7 +86,43 @@ class H(forksym.Harness):
         return rel.concretize_tables(model, info["tabs"])
 
 
-def real_check(src, schema, tables):
+def real_check_polars(src, schema, tables):
+    """real polars, eager adapter: the caller's pl.DataFrame objects unchanged (columns, values) and the second evaluation identical"""
+    import polars as pl
+    import data_algebra.polars_model
+
+    ops = tv.build_ops(src)
+    pframes = rel.real_frames(tables, schema)
+    frames = {}
+    for t, f in pframes.items():
+        kinds = f.attrs.get("kinds", {})
+        frames[t] = pl.DataFrame({c: pl.Series(c, [None if (v is None or v != v) else v for v in f[c].tolist()],
+                                               dtype={"i": pl.Int64, "f": pl.Float64, "b": pl.Boolean, "s": pl.Utf8}.get(kinds.get(c, "f"), pl.Float64)) for c in f.columns})
+    keep = {t: f.clone() for t, f in frames.items()}
+    model = data_algebra.polars_model.PolarsModel(use_lazy_eval=False)
+    outs = []
+    for k in range(2):
+        try:
+            with warnings.catch_warnings():
+                warnings.simplefilter("ignore")
+                outs.append((ops.eval(frames, data_model=model), None))
+        except Exception as e:
+            outs.append((None, f"{type(e).__name__}: {str(e)[:150]}"))
+    problems = []
+    for t, f in frames.items():
+        if list(f.columns) != list(keep[t].columns):
+            problems.append(f"{t}: columns {list(keep[t].columns)} -> {list(f.columns)}")
+        elif not f.equals(keep[t]):
+            problems.append(f"{t}: values changed")
+    (r1, e1), (r2, e2) = outs
+    if (e1 is None) != (e2 is None):
+        problems.append(f"first evaluation {'ok' if e1 is None else e1}, second {'ok' if e2 is None else e2}")
+    return problems
+
+
+def real_check(src, schema, tables, backend="pandas"):
+    if backend == "polars_eager":
+        return real_check_polars(src, schema, tables)
     """real pandas: inputs unchanged (values, dtypes, columns, index) and second evaluation identical"""
     import pandas as pd
 
@@ -139,7 +184,7 @@ def _job(job):
         if r.status == "cex":
             tables = h.concretize(r.model, r.info)
             try:
-                problems = real_check(job["src"], job["schema"], tables)
+                problems = real_check(job["src"], job["schema"], tables, backend=job.get("backend", "pandas"))
             except Exception:
                 problems = None
                 out.setdefault("notes", []).append(traceback.format_exc()[-300:])
@@ -170,6 +215,14 @@ def build_jobs(tier, seed):
         for rows in vecs:
             jobs.append({"id": f"{label}@{','.join(f'{t}={n}' for t, n in rows.items())}", "src": src, "schema": schema, "rows": rows,
                          "max_paths": 60 if tier == "quick" else 1500, "wall_s": 20 if tier == "quick" else 120})
+    # the eager Polars adapter on the caller's own frames: single steps (and the curated programs in the thorough tier)
+    for label, src, tables in ps:
+        if "+" in label and tier == "quick":
+            continue
+        schema = {t: progs.SCHEMA[t] for t in tables}
+        for rows in ([{t: 2 for t in tables}] if tier == "quick" else [{t: 2 for t in tables}, {t: 0 for t in tables}]):
+            jobs.append({"id": f"polars-eager/{label}@{','.join(f'{t}={n}' for t, n in rows.items())}", "src": src, "schema": schema, "rows": rows, "backend": "polars_eager",
+                         "max_paths": 60 if tier == "quick" else 600, "wall_s": 20 if tier == "quick" else 60})
     return jobs
 
 
@@ -202,7 +255,7 @@ def run(tier):
         for f in r["findings"]:
             if f["real_problems"]:
                 rep.violation({"property": PROP, "job": byid[r["id"]], "input": f["input"], "why": f["why"], "real_problems": f["real_problems"]},
-                              f"{r['id']}: {f['why']} / real pandas: {f['real_problems']}")
+                              f"{r['id']}: {f['why']} / real engine: {f['real_problems']}")
             else:
                 unconfirmed += 1
         for n in r.get("notes", []):
@@ -239,7 +292,7 @@ def replay(path):
         ops = tv.build_ops(job["src"])
         bad = any(tv.to_sql(ops, x) != tv.to_sql(ops, x) for x in ("sqlite", "postgresql"))
     else:
-        bad = bool(real_check(job["src"], job["schema"], d["input"]))
+        bad = bool(real_check(job["src"], job["schema"], d["input"], backend=job.get("backend", "pandas")))
     print("replay", job["id"], "->", bad)
     if bad:
         print(f"VIOLATION property={PROP} replay={path}")
